@@ -1,18 +1,18 @@
-\* export (quick): sequences of two submissions to three shards whose retries move back-off state
+\* export (thorough): sequences of three submissions, one repetition each
 CONSTANTS
   ShardLists <- MCThreeShards
   Instants = {0, 1, 2}
   Scenes = {"submit"}
   ChainKinds = {"x509"}
   Firsts = {"cert"}
-  Statuses = {200, 500}
+  Statuses = {200}
   FinalClasses = {"valid"}
   RetryStatuses = {503}
   RetryAfterForms = {"zero", "bare"}
   UndecodableBodies = {}
   AfterRetryStatuses = {200}
-  MaxAnswers = 3
-  MaxCalls = 2
+  MaxAnswers = 2
+  MaxCalls = 3
   MaxMult = 8
   RootAnswers = {}
   CtxMayEnd = FALSE
